@@ -122,6 +122,9 @@ func (d *SPDesc) Node() *Node {
 		sp.Set("WantAssertionsSigned", d.WantAssertionSigned)
 	}
 	sp.Set("protocolSupportEnumeration", NSP)
+	if d.Decor&8 != 0 {
+		sp.Set("errorURL", "https://evil-error-url.example/sp-error")
+	}
 	if d.EncCert != nil {
 		kd := El(q(p, "KeyDescriptor")).Set("use", "encryption")
 		kd.Add(El("ds:KeyInfo", Attr{Name: "xmlns:ds", Value: NSDS}).Add(El("ds:X509Data").Add(El("ds:X509Certificate").SetText(d.EncCert.B64()))))
